@@ -1,8 +1,7 @@
 (* C04R driver: runs the extracted statement-level model of read_oas (coq/OasisRead.v) on the byte stream of each
    case and prints `id \t M \t <result>`: the canonical dump of the loaded library (same text as dump_lib of
    harness/c04r.cpp) or an outcome word: eof overflow invalid unsupported cblock crash hang.
-   With S lines: the covered strict decoder (cov_oas_decode, a restriction of spec_oas_decode) through `view`, only
-   when it accepts the stream.
+   With S lines: the strict decoder spec_oas_decode through `view` whenever it accepts the stream (see below).
    payload: "<tag words ...> x<hex bytes>"; the byte string is the last word. *)
 open C04r
 open Conv
@@ -246,9 +245,27 @@ let () =
       let w = if String.length w > 0 && w.[0] = 'x' then String.sub w 1 (String.length w - 1) else w in
       let bs = bytes_of_hex w in
       out id "M" (show_outcome (read_oas_model bs));
-      (* the strict decoder as an independent oracle: whenever it accepts a covered stream (cov_oas_decode, the part of
-         spec_oas_decode for which oas_reader_accepts_spec_partial is proved), the reader must load view(L) *)
-      (match cov_oas_decode bs with
-       | Some l -> out id "S" (show_outcome (Ok (view l)))
-       | None -> ())
+      (* the strict decoder as an independent oracle (property C04: every spec-legal stream loads to the layout it encodes).
+         Covered streams (cov_oas_decode: the part for which oas_reader_accepts_spec_partial is proved): S = dump of view(L).
+         Accepted but not covered: the same S with a trailing ` #guard=<name>` naming the first failed guard (diag_oas), which
+         checks/c04r.py strips before comparing and turns into the finding key.  No S line when the only failed guards are
+         c5 (CTRAPEZOID type 25: which side is right about the modal height is not settled) or c7 / c6 after PROPNAME,
+         PROPSTRING / c8 (two CELL records with one reference number; a dropped property with a dangling reference: the
+         strict decoder is lenient there, such streams are not legal OASIS; the M line still checks the reader model). *)
+      (match spec_oas_decode bs with
+       | None -> ()
+       | Some l ->
+           let s = show_outcome (Ok (view l)) in
+           (match cov_oas_decode bs with
+            | Some _ -> out id "S" s
+            | None ->
+                let codes = List.map int_of_n (diag_oas bs) in
+                let others = List.filter (fun c -> not (List.mem c [5; 7; 63; 8])) codes in
+                (match others with
+                 | [] -> if codes = [] then out id "S" (s ^ " #guard=unclassified") else ()
+                 | c :: _ ->
+                     let name = match c with
+                       | 1 -> "c1" | 2 -> "c2" | 3 -> "c3" | 4 -> "c4" | 61 -> "c6-textstring" | 62 -> "c6-layername"
+                       | _ -> "unclassified" in
+                     out id "S" (s ^ " #guard=" ^ name))))
     end)
